@@ -532,7 +532,7 @@ class ProxyE2E(Suite):
     def run(self, case):
         res = []
         old = signal.signal(signal.SIGALRM, _on_alarm)
-        signal.alarm(60)
+        signal.alarm(240)
         try:
             with sc.quiet_log():
                 try:
